@@ -202,6 +202,7 @@ type nEnv struct {
 	levels  []int // wanted level of the next Put per writer
 	randID  []int
 	closing bool
+	salt    int
 }
 
 func newNEnv(cfg nCfg) *nEnv {
@@ -241,8 +242,8 @@ func newNEnv(cfg nCfg) *nEnv {
 }
 
 // levelOf is the deterministic level policy of sequential explorations (a function of the bytes).
-func levelOf(bs []byte) int {
-	h := 0
+func levelOf(bs []byte, salt int) int {
+	h := salt
 	for _, b := range bs {
 		h = h*31 + int(b)
 	}
@@ -250,7 +251,7 @@ func levelOf(bs []byte) int {
 }
 
 func (e *nEnv) put(w int, bs []byte) *skiplist.Node {
-	e.levels[w] = levelOf(bs)
+	e.levels[w] = levelOf(bs, e.salt)
 	return e.ws[w].Put2(bs)
 }
 
